@@ -115,13 +115,13 @@ def run(ctx):
                        'facet() is eager by documentation']
     rep.trusted = ['STREAMING list frozen from the property statement and DESIGN appendix C',
                    'callee resolution']
-    r21(ctx, rep, ti)
-    r22(ctx, rep, ti)
-    r23(ctx, rep, ti)
-    r24(ctx, rep, ti)
-    r25(ctx, rep, ti)
+    ctx.attempt(r21, ctx, rep, ti)
+    ctx.attempt(r22, ctx, rep, ti)
+    ctx.attempt(r23, ctx, rep, ti)
+    ctx.attempt(r24, ctx, rep, ti)
+    ctx.attempt(r25, ctx, rep, ti)
     rep.rule('R2.6', 'table iterators yield their header before they read the first data row (header consultation at construction stays lazy)')
-    r26(ctx, rep, ti)
+    ctx.attempt(r26, ctx, rep, ti)
 
 
 # ------------------------------------------------------------------------ R2.1
@@ -227,7 +227,9 @@ def r22(ctx, rep, ti):
                 v = ev.info['iter']
                 hit = _stream_hits(v, S, containers)
                 if hit and not ev.info['has_yield'] and fn.is_generator and not _loop_escapes(ev.node):
-                    bad = 'loop over the streamed source %s without a yield (drains it before any row is delivered)' % sorted(hit)
+                    bad = 'loop over the streamed source %s without a yield (drains it before any row is delivered%s)' % (
+                        sorted(hit), '; it is left only under a condition on the rows, not after a bounded number of passes'
+                        if any(isinstance(x, (ast.Break, ast.Return)) for x in ast.walk(ev.node)) else '')
             elif ev.kind == 'call':
                 for callee, actual in ti._callees(fn, ev):
                     cr = ti.reads(callee)
@@ -306,11 +308,37 @@ def _stream_hits(v, S, containers):
 
 
 def _loop_escapes(fornode):
-    """A loop that leaves at its first matching row (break/return) is a
-    bounded look-ahead, not a drain."""
-    for n in ast.walk(fornode):
-        if isinstance(n, (ast.Break, ast.Return)):
-            return True
+    """Is the number of passes of this loop bounded independently of the data?  (a) the body ends with break / return
+    (at most one pass: a look-ahead), or (b) it breaks when a counter that every pass increments unconditionally reaches
+    a bound.  A break under a condition on the rows themselves (first row with ..., enough rows of some kind) can take
+    the whole source."""
+    body = fornode.body
+    if body and isinstance(body[-1], (ast.Break, ast.Return)):
+        return True
+    # else-less `for x in it: return/break` nested as the only statement of a try
+    if len(body) == 1 and isinstance(body[0], ast.Try) and body[0].body and isinstance(body[0].body[-1], (ast.Break, ast.Return)) \
+            and all(h.body and isinstance(h.body[-1], (ast.Break, ast.Return, ast.Raise)) for h in body[0].handlers):
+        return True
+    counters = set()
+    for s in body:
+        if isinstance(s, ast.AugAssign) and isinstance(s.op, ast.Add) and isinstance(s.target, ast.Name) and \
+                isinstance(s.value, ast.Constant) and isinstance(s.value.value, int) and s.value.value > 0:
+            counters.add(s.target.id)
+        elif isinstance(s, ast.Assign) and len(s.targets) == 1 and isinstance(s.targets[0], ast.Name) and \
+                isinstance(s.value, ast.BinOp) and isinstance(s.value.op, ast.Add) and \
+                isinstance(s.value.left, ast.Name) and s.value.left.id == s.targets[0].id and \
+                isinstance(s.value.right, ast.Constant) and isinstance(s.value.right.value, int) and s.value.right.value > 0:
+            counters.add(s.targets[0].id)
+    if isinstance(fornode.target, ast.Tuple) and isinstance(fornode.iter, ast.Call) and norm(fornode.iter.func) == 'enumerate' and \
+            fornode.target.elts and isinstance(fornode.target.elts[0], ast.Name):
+        counters.add(fornode.target.elts[0].id)
+    for s in body:
+        if isinstance(s, ast.If) and not s.orelse and s.body and isinstance(s.body[-1], (ast.Break, ast.Return)):
+            t = s.test
+            if isinstance(t, ast.Compare) and len(t.ops) == 1 and isinstance(t.ops[0], (ast.GtE, ast.Gt, ast.Eq, ast.LtE, ast.Lt)):
+                names = {x.id for x in ast.walk(t) if isinstance(x, ast.Name)}
+                if names & counters:
+                    return True
     return False
 
 
